@@ -2,11 +2,15 @@ package main
 
 // C08 checks on the real node: agreement of nodes that consumed the same log, rebuild by replay
 // (fresh process and in-process state reset) under arbitrary poll batching, prefix agreement,
-// ignore lists, non-interference of rounds interleaved on one board.
+// ignore lists, non-interference of rounds interleaved on one board (also of two rounds that bind the
+// same names to different communication keys, each one's signed lines posted again under the other's id).
 
 import (
 	"bytes"
 	"crypto/ed25519"
+	"crypto/sha256"
+	"encoding/hex"
+	"encoding/json"
 	"fmt"
 	"os"
 	"path/filepath"
@@ -16,6 +20,8 @@ import (
 
 	"github.com/lidofinance/dc4bc/client/api/dto"
 	"github.com/lidofinance/dc4bc/client/modules/keystore"
+	spf "github.com/lidofinance/dc4bc/fsm/state_machines/signature_proposal_fsm"
+	"github.com/lidofinance/dc4bc/fsm/types/requests"
 	"github.com/lidofinance/dc4bc/storage"
 )
 
@@ -484,4 +490,199 @@ func (r *nodeRun) resetObserved(c *cluster, obs *vnode) {
 		}
 		obs.st.SaveOffset(m.Offset + 1)
 	}
+}
+
+// restartNode: the process of a node ends and is started again on the same directories (what consume does between polls)
+func (c *cluster) restartNode(n *vnode) error {
+	mute, filter, rewrite := n.stg.mute, n.stg.filter, n.stg.rewrite
+	n.ldb.VerifClose()
+	n.stg.Close()
+	if err := c.buildNodeServices(n); err != nil {
+		return err
+	}
+	n.stg.mute, n.stg.filter, n.stg.rewrite = mute, filter, rewrite
+	return nil
+}
+
+// rekeyedRounds (C08, outside the model's history): two rounds on one board that bind the SAME user names to DIFFERENT
+// communication keys - round A is a real key generation of the cluster, round B is opened for the same names (same order,
+// hence the same participant ids) with fresh keys, as after a rotation of the communication keys. B's own messages are the
+// confirmations signed with the fresh keys; in between, every signed message of A is posted again under B's id, byte for
+// byte, right after the original (and B's confirmations under A's id). What a node holds for B may depend on the lines that
+// carry B's id only: a process that read the whole board, one that was restarted after every line, and one that was shown
+// B's lines alone must hold the same for B (and likewise for A).
+func (r *nodeRun) rekeyedRounds(outDir string) {
+	n := 2
+	if r.tier == "thorough" {
+		n = 3
+	}
+	dir, _ := os.MkdirTemp(outDir, "rekeyed")
+	defer os.RemoveAll(dir)
+	c, err := newCluster(dir, n, "pw")
+	if err != nil {
+		r.mon("harness: " + err.Error())
+		return
+	}
+	defer c.close()
+	roundA, err := c.startDKG(n)
+	if err != nil {
+		r.mon("harness: " + err.Error())
+		return
+	}
+	fresh := make([]*keystore.KeyPair, n)
+	var parts []*requests.SignatureProposalParticipantsEntry
+	for i, nd := range c.nodes {
+		fresh[i] = keystore.NewKeyPair()
+		pk, err := nd.air.GetPubKey().MarshalBinary()
+		if err != nil {
+			r.mon("harness: " + err.Error())
+			return
+		}
+		parts = append(parts, &requests.SignatureProposalParticipantsEntry{Username: nd.name, PubKey: fresh[i].Pub, DkgPubKey: pk})
+	}
+	bz, _ := json.Marshal(requests.SignatureProposalParticipantsListRequest{Participants: parts, SigningThreshold: n, CreatedAt: time.Now()})
+	h := sha256.Sum256(bz)
+	roundB := hex.EncodeToString(h[:])
+	if err := c.nodes[0].svc.StartDKG(&dto.StartDkgDTO{Payload: bz}); err != nil {
+		r.mon("harness: " + err.Error())
+		return
+	}
+	r.st.RekeyedRoundBoards++
+	post := func(m storage.Message) {
+		m.ID, m.Offset = "", 0
+		c.nodes[r.rng.Intn(n)].stg.Send(m)
+	}
+	confirmB := func(i int) {
+		data, _ := json.Marshal(requests.SignatureProposalParticipantRequest{ParticipantId: i, CreatedAt: time.Now()})
+		m := storage.Message{DkgRoundID: roundB, Event: string(spf.EventConfirmSignatureProposal), Data: data, Signature: ed25519.Sign(fresh[i].Priv, data), SenderAddr: c.nodes[i].name}
+		post(m)
+		// … and B's line under A's id
+		m.DkgRoundID = roundA
+		post(m)
+		r.st.RekeyedRoundCopies++
+	}
+	// B's own confirmations: all but the last participant's now, the last one after A's confirmations went by
+	for i := 0; i < n-1; i++ {
+		confirmB(i)
+	}
+	copied := 0
+	copyA := func() {
+		msgs := c.boardMessages()
+		for _, m := range msgs[copied:] {
+			if m.DkgRoundID == roundA && m.Event != string(spf.EventInitProposal) && len(m.Signature) > 0 {
+				if ed25519.Verify(c.nodeByName(m.SenderAddr), m.Data, m.Signature) {
+					x := m
+					x.DkgRoundID = roundB
+					post(x)
+					r.st.RekeyedRoundCopies++
+				}
+			}
+		}
+		copied = len(c.boardMessages())
+	}
+	lastConfirmed := false
+	for iter := 0; iter < 30; iter++ {
+		moved := 0
+		for _, nd := range c.nodes {
+			evs, _ := c.pollOnce(nd, 0)
+			moved += len(evs)
+		}
+		for _, nd := range c.nodes {
+			for _, op := range nd.pendingOps() {
+				if op.DKGIdentifier != roundA {
+					continue // (B's invitations stay unanswered: nobody holds B's keys but this function)
+				}
+				if err := c.answerOp(nd, op); err == nil {
+					moved++
+				}
+			}
+		}
+		copyA()
+		if !lastConfirmed && iter >= 1 {
+			confirmB(n - 1)
+			lastConfirmed = true
+			moved++
+		}
+		if moved == 0 {
+			break
+		}
+	}
+	if st := c.roundState(c.nodes[0], roundA); st != "stage_signing_idle" && len(r.st.Notes) < 30 {
+		r.st.Notes = append(r.st.Notes, "rekeyedRounds: round A ended in "+st)
+	}
+	logLen := len(c.boardMessages())
+	j := r.rng.Intn(n)
+	reader := func(tag string, filter func(storage.Message) bool, restart bool) *vnode {
+		rep, err := c.replica(j, tag, filter)
+		if err != nil {
+			r.mon("harness: replica: " + err.Error())
+			return nil
+		}
+		for k := 0; k < 10*logLen+10; k++ {
+			max := 0
+			if restart {
+				max = 1
+			}
+			evs, err := c.pollOnce(rep, max)
+			if err != nil || len(evs) == 0 {
+				break
+			}
+			if restart {
+				if err := c.restartNode(rep); err != nil {
+					r.mon("harness: restart: " + err.Error())
+					break
+				}
+			}
+		}
+		return rep
+	}
+	whole := reader("rk-whole", nil, false)
+	restarted := reader("rk-restarted", nil, true)
+	for _, rd := range []struct{ id, name, other string }{{roundB, "B (fresh keys for the same names)", "A"}, {roundA, "A (the cluster's keys)", "B"}} {
+		rd := rd
+		alone := reader("rk-alone", func(m storage.Message) bool { return m.DkgRoundID == rd.id }, false)
+		if whole != nil && restarted != nil && alone != nil {
+			pw, pr, pa := publicProj(whole, rd.id), publicProj(restarted, rd.id), publicProj(alone, rd.id)
+			r.st.C08Compared += 2
+			setup := fmt.Sprintf("board of %d lines with two rounds binding the names of the %d participants to different communication keys, every signed line of the one posted again under the id of the other", logLen, n)
+			if pw != pa {
+				r.mon(fmt.Sprintf("C08 round_noninterference: round %s on %s differs between the process that read the whole board (phase %s) and the one shown this round's lines alone (phase %s): the lines carrying round %s's id changed it (%s) %s", rd.name, c.nodes[j].name, phaseOf(pw), phaseOf(pa), rd.other, setup, firstDiff(pa, pw)))
+			}
+			if pw != pr {
+				r.mon(fmt.Sprintf("C08 replay_eq_live: round %s on %s differs between the process that read the whole board in one life (phase %s) and the one restarted after every line (phase %s) (%s) %s", rd.name, c.nodes[j].name, phaseOf(pw), phaseOf(pr), setup, firstDiff(pr, pw)))
+			}
+		}
+		if alone != nil {
+			alone.closeReplica()
+		}
+	}
+	if whole != nil {
+		whole.closeReplica()
+	}
+	if restarted != nil {
+		restarted.closeReplica()
+	}
+}
+
+// nodeByName: the communication key of the participant of that name (nil: nobody)
+func (c *cluster) nodeByName(name string) ed25519.PublicKey {
+	for _, nd := range c.nodes {
+		if nd.name == name {
+			return nd.kp.Pub
+		}
+	}
+	return make(ed25519.PublicKey, ed25519.PublicKeySize)
+}
+
+// phaseOf: the state name in a one-round projection
+func phaseOf(proj string) string {
+	i := strings.Index(proj, "D{st=")
+	if i < 0 {
+		return "no such round"
+	}
+	rest := proj[i+5:]
+	if j := strings.IndexByte(rest, ' '); j > 0 {
+		return rest[:j]
+	}
+	return rest
 }
